@@ -20,7 +20,7 @@ package pathdb
 
 import (
 	"bytes"
-	"context"
+	stdctx "context"
 	"encoding/binary"
 	"encoding/json"
 	"fmt"
@@ -192,10 +192,10 @@ func c20Gid() uint64 {
 	return id
 }
 
-func (h *c20CritLog) Enabled(_ context.Context, level slog.Level) bool { return level >= log.LevelCrit }
-func (h *c20CritLog) WithGroup(string) slog.Handler                  { return h }
-func (h *c20CritLog) WithAttrs([]slog.Attr) slog.Handler             { return h }
-func (h *c20CritLog) Handle(_ context.Context, r slog.Record) error {
+func (h *c20CritLog) Enabled(_ stdctx.Context, level slog.Level) bool { return level >= log.LevelCrit }
+func (h *c20CritLog) WithGroup(string) slog.Handler                   { return h }
+func (h *c20CritLog) WithAttrs([]slog.Attr) slog.Handler              { return h }
+func (h *c20CritLog) Handle(_ stdctx.Context, r slog.Record) error {
 	msg := r.Message
 	r.Attrs(func(a slog.Attr) bool {
 		msg += fmt.Sprintf(" %s=%v", a.Key, a.Value)
@@ -581,7 +581,7 @@ func (fd *c20Findings) add(c c20Case, err error, tag string) {
 	if len(c.Loss.Pick) > 0 || c.Loss.NS > 0 {
 		ctxs += ",fs=lossy"
 	}
-	cl = "[" + ctxs + "] " + cl
+	_ = ctxs
 	if tag != "" {
 		cl = "{" + tag + "} recovery fails"
 	}
@@ -658,12 +658,45 @@ func c20Diagnose(img *vos.FS) string {
 	return strings.Join(tags, ",")
 }
 
+// c20StaleJournal reports whether the crash image holds a journal (KV entry or file) whose
+// disk layer is a state that the history has rolled back (it is not the head nor one of
+// its ancestors): the precondition of the stale-journal defect established by this check.
+func c20StaleJournal(kvImg ethdb.KeyValueReader, img *vos.FS, cfg c20Config, m *c20Model) bool {
+	blob := rawdb.ReadTrieJournal(kvImg)
+	if cfg.journalFS {
+		if f, ok := img.Files()["journal/merkle.journal"]; ok {
+			blob = f
+		}
+	}
+	if len(blob) == 0 {
+		return false
+	}
+	st := rlp.NewStream(bytes.NewReader(blob), 0)
+	var (
+		version        uint64
+		diskRoot, root common.Hash
+	)
+	if st.Decode(&version) != nil || st.Decode(&diskRoot) != nil || st.Decode(&root) != nil {
+		return false
+	}
+	for r := m.head; ; r = m.parent[r] {
+		if r == root {
+			return false
+		}
+		if r == types.EmptyRootHash {
+			break
+		}
+	}
+	_, known := m.states[root]
+	return known
+}
+
 // ---- exploration ----------------------------------------------------------------------
 
 type c20Params struct {
-	maxDev    int
-	allKV     bool
-	withinOp  bool
+	maxDev   int
+	allKV    bool
+	withinOp bool
 }
 
 func c20Sig(evs []vos.Event) string {
@@ -815,8 +848,15 @@ func c20Explore(r *mc.R, cfg c20Config, ops []int, p c20Params, seen *sync.Map, 
 					var outcome string
 					r.Case(cs, func() error {
 						tag := c20Diagnose(img)
+						kvImg := s.kv.Image(keep)
+						if c20StaleJournal(kvImg, img, cfg, model) {
+							if tag != "" {
+								tag += ","
+							}
+							tag += "journal-of-rolled-back-state"
+						}
 						err := mc.Safely(func() error {
-							o, err := c20Recover(s.kv.Image(keep), img, cfg, ctx)
+							o, err := c20Recover(kvImg, img, cfg, ctx)
 							outcome = o
 							return err
 						})
